@@ -85,6 +85,42 @@ def main(argv):
         if sum(1 for f in failures if f["obligation"] == oid) < 60:
             failures.append(dict(obligation=oid, witness=witness, observed=observed))
     corpus = harvest()
+    if "C17" in only:
+        # every snippet the 2003 rule accepts is accepted by the rule of the same name under the 2008 parser, with the same text
+        import fparser.two.Fortran2003 as F3
+        import fparser.two.Fortran2008 as F8
+        res = {}
+        for std in ("f2003", "f2008"):
+            ParserFactory().create(std=std)
+            for name, text, s, path in corpus:
+                if s != "f2003":
+                    continue
+                c8 = getattr(F8, name, None) if std == "f2008" else None
+                if c8 is not None and not getattr(c8, "__module__", "").startswith("fparser.two.Fortran2008."):
+                    c8 = None       # generated helper classes (_List, _Name) of the package itself are not rules of their own
+                cls = c8 or getattr(F3, name, None)
+                if cls is None or not isinstance(cls, type) or not issubclass(cls, Base):
+                    continue
+                try:
+                    o = cls(text)
+                    res[(name, text, std)] = None if o is None else str(o)
+                except BaseException:  # noqa
+                    res[(name, text, std)] = None
+        for (name, text, std), v in sorted(res.items()):
+            if std != "f2003" or v is None:
+                continue
+            cases += 1
+            accepted += 1
+            v8 = res.get((name, text, "f2008"))
+            if v8 != v:
+                fail("rule#f2008_rule_accepts_what_the_f2003_rule_accepts", dict(cls=name, text=text), dict(f2003=v, f2008=v8))
+        only = [x for x in only if x != "C17"]
+        if not only:
+            print(json.dumps(dict(name="bounded_harvest", cases=cases, distinct=accepted, exhaustive=False, bounded=True, failures=failures, samples=samples,
+                                  rule="%d harvested (class, text) pairs accepted by the f2003 rules compared under both parsers" % accepted,
+                                  assumptions=["bounded: the snippets of the repository's own rule tests (harvested from the tree under check)"],
+                                  seconds=round(time.time() - t0, 2))))
+            return 0
     for std in ("f2003", "f2008"):
         ParserFactory().create(std=std)
         import fparser.two.Fortran2003 as F3
